@@ -67,6 +67,13 @@ def run(ctx):
     okc, msg = fmtlib.regen_consts(ctx)
     if not okc:
         broken.append(msg)
+    # the guards of the posting iterator's loop, read from index/hititer.go (go/ast) -> Generated/PostingGuard.v
+    rc, out = vf.sh(["go", "run", os.path.join(vf.ROOT, "translator", "c11guard", "main.go"), vf.REPO], cwd=ctx.tmp, env=vf.go_env(), timeout=300)
+    if rc != 0 or "Definition cpi_next_stops_on_zero" not in out:
+        broken.append("translator/c11guard failed: " + out[-1200:])
+    else:
+        with vf._Lock("coq"):
+            vf.write_if_changed(os.path.join(vf.COQ, "Generated", "PostingGuard.v"), out)
     proofs = vf.coq_props(ctx, "C11", extra_targets=["Model/FormatRobust.vo", "Model/FormatStats.vo", "Model/FormatPosting.vo"])
     aok, aout = vf.audit()
     if not aok:
@@ -132,7 +139,9 @@ def run(ctx):
                                    env={"VERIF_C11_TARGETS": tfile}, timeout=900, out_name="out-targeted.jsonl")
 
     tthread = None
-    if bases and proofs.get("ok") and hr["rc"] == 0:
+    # (also when Props/C11.v does not check: the model files are built with make -k, and a changed guard must still be
+    # reported with the concrete file + query, not only as a broken proof)
+    if bases and hr["rc"] == 0 and os.path.exists(os.path.join(vf.COQ, "Model", "FormatPosting.vo")):
         tthread = threading.Thread(target=targeted_pass)
         tthread.start()
     # correspondence: model outcome class vs implementation outcome class
@@ -171,6 +180,8 @@ def run(ctx):
     for r in ihr["records"]:
         if r.get("kind") == "oracle_fail":
             failures.append(dict(key=r.get("key", "?"), what=r.get("what", ""), replay=r.get("replay")))
+    for r in [r for r in ihr["records"] if r.get("kind") == "iter_panic"][:5]:
+        broken.append("correspondence (posting iterator): the model says the iterator never panics, the implementation panicked: %s" % json.dumps(r)[:500])
     if ihr["rc"] != 0:
         broken.append("harness TestVerifC11Iter failed (rc=%d): %s" % (ihr["rc"], ihr["log"][-1500:]))
     iev = dict(ok=True, bad=[], evaluated=0, log="")
